@@ -257,8 +257,11 @@ fn dops(n: usize) -> Vec<DOp> {
         v.push(DOp::Nth(k));
         v.push(DOp::NthBack(k));
     }
-    v.push(DOp::Nth(usize::MAX));
-    v.push(DOp::NthBack(usize::MAX));
+    // skip counts around the 8-, 16- and 32-bit truncation points
+    for k in [255usize, 256, 257, 256 + n, 511, 512, 65536, 65537, 1 << 32, (1 << 32) + 1, usize::MAX - 1, usize::MAX] {
+        v.push(DOp::Nth(k));
+        v.push(DOp::NthBack(k));
+    }
     v
 }
 
@@ -332,7 +335,7 @@ fn enum_iters(which: u8, max_len: usize) -> Result<u64, String> {
 
 fn pos_all() -> Result<(), String> {
     // forward-only: next / nth / size_hint against 0..64
-    for first in 0..=66usize {
+    for first in (0..=66usize).chain([255, 256, 257, 320, 65536, 1 << 32, usize::MAX]) {
         for second in [0usize, 1, 5, 63, 64, 200] {
             let mut it = Pos::all();
             let mut m = 0u8..64;
@@ -497,7 +500,7 @@ fn worker(ctx: &WorkerCtx) -> Result<(), Fail> {
             if !ctx.mine(which as u64 + 3) {
                 continue;
             }
-            let max_len = if which < 2 { 4 } else { 3 };
+            let max_len = 3;
             let c = guarded(|| enum_iters(which, max_len)).unwrap_or_else(Err).map_err(|d| f(json!({"c19": "enum_iter", "which": which, "max_len": max_len}), d))?;
             st.eval(c);
             st.class_n("iterator op lists (front/back/nth/nth_back) compared with slice iterators", c);
